@@ -9,7 +9,14 @@ import sys, os, json, subprocess, shutil, hashlib, time
 
 agent, n, sid = sys.argv[1], sys.argv[2], sys.argv[3]
 tiers = [sys.argv[4]] if len(sys.argv) > 4 and sys.argv[4] in ("quick", "thorough") else ["quick", "thorough"]
-meta = json.load(open(os.path.join(agent, "meta_%s.json" % n)))
+FROM_SEEDED = agent == "--seeded"   # re-evaluate /verif/seeded/<sid> (patch.diff, demo/, meta.json)
+if FROM_SEEDED:
+    sdir = "/verif/seeded/%s" % sid
+    old = json.load(open(sdir + "/meta.json"))
+    meta = dict(property=old["breaks_property"], summary=old.get("summary"), needs_to_manifest=old.get("needs_to_manifest"), files_changed=old.get("files_changed"),
+                demo_cmd=old.get("demo_cmd"), why_tests_still_pass=old.get("why_tests_still_pass"))
+else:
+    meta = json.load(open(os.path.join(agent, "meta_%s.json" % n)))
 prop = meta["property"]
 extra_props = [a for a in sys.argv[5:]]
 wt = "/tmp/wt-eval-%s" % sid
@@ -21,12 +28,21 @@ subprocess.check_call(["git", "-C", "/repo", "worktree", "add", "-q", "--detach"
 res = dict(seeded_id=sid, property=prop, agent_meta=meta)
 try:
     shutil.copy("/repo/Cargo.lock", wt + "/Cargo.lock")
-    demo_src = os.path.join(agent, "demo_%s" % n)
-    shutil.copytree(demo_src, os.path.join(wt, "demo_%s" % n), ignore=shutil.ignore_patterns("target"))
-    demo_cmd = meta["demo_cmd"].replace(agent, wt)
+    import re
+    if FROM_SEEDED:
+        demo_src = sdir + "/demo"
+        patch_file = sdir + "/patch.diff"
+    else:
+        demo_src = os.path.join(agent, "demo_%s" % n)
+        patch_file = os.path.join(agent, "mutation_%s.diff" % n)
+    demo_dst = os.path.join(wt, "demo_%s" % n)
+    shutil.copytree(demo_src, demo_dst, ignore=shutil.ignore_patterns("target"))
+    if not os.path.exists(demo_dst + "/Cargo.lock"):
+        shutil.copy("/repo/Cargo.lock", demo_dst + "/Cargo.lock")
+    demo_cmd = re.sub(r"/tmp/agent-[A-Za-z0-9]+/demo_\d+", demo_dst, meta["demo_cmd"])
     rc0, out0 = sh(demo_cmd)
     res["demo_without_change_rc"] = rc0
-    rc, out = sh("git apply %s" % os.path.join(agent, "mutation_%s.diff" % n), cwd=wt)
+    rc, out = sh("git apply %s" % patch_file, cwd=wt)
     if rc != 0:
         res["error"] = "patch does not apply: " + out[-500:]
         raise SystemExit
@@ -72,10 +88,11 @@ print(json.dumps(res, indent=1))
 if valid:
     out = "/verif/seeded/%s" % sid
     os.makedirs(out, exist_ok=True)
-    shutil.copy(os.path.join(agent, "mutation_%s.diff" % n), out + "/patch.diff")
-    if os.path.exists(out + "/demo"):
-        shutil.rmtree(out + "/demo")
-    shutil.copytree(os.path.join(agent, "demo_%s" % n), out + "/demo", ignore=shutil.ignore_patterns("target", "Cargo.lock"))
+    if not FROM_SEEDED:
+        shutil.copy(os.path.join(agent, "mutation_%s.diff" % n), out + "/patch.diff")
+        if os.path.exists(out + "/demo"):
+            shutil.rmtree(out + "/demo")
+        shutil.copytree(os.path.join(agent, "demo_%s" % n), out + "/demo", ignore=shutil.ignore_patterns("target", "Cargo.lock", "miri-sysroot"))
     json.dump(dict(breaks_property=prop, summary=meta.get("summary"), needs_to_manifest=meta.get("needs_to_manifest"), files_changed=meta.get("files_changed"),
                    demo_cmd=meta.get("demo_cmd"), why_tests_still_pass=meta.get("why_tests_still_pass"), origin="independent sub-agent given only the property text",
                    confirmed=dict(demo_without_change_rc=res["demo_without_change_rc"], demo_with_change_rc=res["demo_with_change_rc"], suite_with_change=res["suite_with_change"]),
